@@ -407,6 +407,10 @@ func (e *Exec) shiftOp(op token.Token, tx, ty types.Type, x, y Sc) Value {
 }
 
 func (e *Exec) strEq(x, y Str) Sc {
+	// a formatted string with literal text in its format is not the empty string
+	if x.opaque && x.nonEmpty && !y.opaque && y.Len() == 0 || y.opaque && y.nonEmpty && !x.opaque && x.Len() == 0 {
+		return mkBool(false)
+	}
 	if x.opaque || y.opaque {
 		e.unsupported("comparison of opaque (formatted) string")
 	}
